@@ -340,6 +340,8 @@ class Executor:
                 return tuple(self.R(x) for x in v["$tuple"])
             if "$array" in v:
                 return numpy.array(v["$array"], dtype=float)
+            if "$npint" in v:
+                return numpy.int64(v["$npint"])        # an order that comes out of numpy / pandas instead of being typed in
             if "$new_comp" in v:
                 return build.composition(v["$new_comp"])
             if "$new_perm" in v:
